@@ -13,7 +13,10 @@ package main
 // ops:  sub A B   -> eq is chk gen iis iof igen   (bits; see execTypes)
 //       refl A    -> bits of the IsSubType variants on (A, A)
 //       bounds A  -> never<:A (3 variants) , A<:Any (3 variants)
-//       trans A B C -> ab bc ac  (sema.IsSubType)
+//       trans A B C [D] -> ab bc ac  (sema.IsSubType); D = the declared interfaces `N IF..` (the facts the
+//                   transitivity theorem's coherence hypothesis is about; ignored by the executor)
+//       decls D     -> ok   (the driver checks that the declarations are coherent: unique names, effective
+//                   conformance sets transitively closed within one kind)
 
 import (
 	"fmt"
@@ -183,6 +186,15 @@ func (u *typesUniverse) encComp(name string) string {
 func (u *typesUniverse) encIface(name string) string {
 	t := u.interfaces[name]
 	return "if " + name + " " + typesKindName(t.CompositeKind) + " " + typesConfs(t.EffectiveInterfaceConformanceSet())
+}
+
+// the declared interfaces, facts from the real sema types: `N IF..`
+func (u *typesUniverse) encDecls() string {
+	out := strconv.Itoa(len(u.ifNames))
+	for _, n := range u.ifNames {
+		out += " " + u.encIface(n)
+	}
+	return out
 }
 
 // ---- parser: tokens -> sema.Type
@@ -378,6 +390,8 @@ func execTypes(op []string) string {
 	case "bounds":
 		a := typesParse(op[2])
 		return variants(sema.NeverType, a) + " " + variants(a, sema.AnyType)
+	case "decls":
+		return "ok"
 	case "trans":
 		a, b, c := typesParse(op[2]), typesParse(op[3]), typesParse(op[4])
 		return typesBit(func() bool { return sema.IsSubType(a, b) }) +
@@ -690,6 +704,8 @@ func genTypes(c *hx.Ctx) {
 		leaves = append(leaves, g.u.encIface(n))
 	}
 	leaves = append(leaves, "capany")
+	decls := g.u.encDecls()
+	c.Emit("types", "decls", decls)
 	for _, a := range leaves {
 		c.Emit("types", "refl", a)
 		c.Emit("types", "bounds", a)
@@ -714,7 +730,7 @@ func genTypes(c *hx.Ctx) {
 			c.Emit("types", "sub", a, b)
 			c.Emit("types", "sub", b, a)
 			cc := typesFixAny(g.superOf(b, 3))
-			c.Emit("types", "trans", a, b, cc)
+			c.Emit("types", "trans", a, b, cc, decls)
 			if g.r.Chance(30) {
 				c.Emit("types", "sub", a, cc)
 			}
